@@ -36,18 +36,37 @@ def S(x):
     return g.qs(x)
 
 
+def dyadic(fr):
+    """canonical (m, e) with |fr| = m * 2**e, m odd (or m = e = 0)"""
+    fr = abs(F(fr))
+    if fr == 0:
+        return 0, 0
+    n, d = fr.numerator, fr.denominator
+    if d > 1:
+        assert d & (d - 1) == 0, "not a dyadic rational"
+        return n, -(d.bit_length() - 1)
+    e = (n & -n).bit_length() - 1
+    return n >> e, e
+
+
 def enc_num(x):
-    """exact encoding of one real scalar: ['F', signbit, 'n/d'] | ['I', signbit] | ['N']"""
+    """exact encoding of one real scalar: ['F', signbit, m, e] (value m * 2**e) | ['I', signbit] | ['N']"""
     if isinstance(x, (bool, np.bool_)):
-        return ["F", False, S(int(x))]
+        return ["F", False, *dyadic(int(x))]
     if isinstance(x, (int, np.integer)):
-        return ["F", bool(x < 0), S(int(x))]
+        return ["F", bool(x < 0), *dyadic(int(x))]
     x = float(x)
     if math.isnan(x):
         return ["N"]
     if math.isinf(x):
         return ["I", x < 0]
-    return ["F", math.copysign(1.0, x) < 0, S(x)]
+    return ["F", math.copysign(1.0, x) < 0, *dyadic(F(x))]
+
+
+def num_value(e):
+    """Fraction value of a finite encoded number (sign applied)"""
+    v = F(e[2]) * F(2) ** e[3]
+    return -v if e[1] else v
 
 
 def enc_vals(arr):
@@ -58,7 +77,7 @@ def enc_vals(arr):
         return [[enc_num(v.real), enc_num(v.imag)] for v in flat.tolist()]
     if a.dtype.kind == "f" and a.dtype.itemsize > 8:
         raise TypeError("extended precision payloads are outside the checked domain")
-    zero = ["F", False, "0/1"]
+    zero = ["F", False, 0, 0]
     return [[enc_num(v), zero] for v in flat.tolist()]
 
 
@@ -110,17 +129,17 @@ def c_num(e):
         return "NaN"
     if e[0] == "I":
         return f"(Inf {g.b(e[1])})"
-    return f"(Fin {g.b(e[1])} {g.q(e[2])})"
+    return f"(Fin {g.b(e[1])} {g.z(e[2])} {g.z(e[3])})"
 
 
-ZERO = ["F", False, "0/1"]
+ZERO = ["F", False, 0, 0]
 
 
 def c_val(v):
     re, im = v
     if im == ZERO:
         if re[0] == "F":
-            return f"{'rn' if re[1] else 'rp'} {g.q(re[2])}"
+            return f"{'rn' if re[1] else 'rp'} {g.z(re[2])} {g.z(re[3])}"
         return f"rv {c_num(re)}"
     return f"({c_num(re)}, {c_num(im)})"
 
@@ -231,7 +250,7 @@ def dec_num(e):
         return float("nan")
     if e[0] == "I":
         return -math.inf if e[1] else math.inf
-    x = F(e[2])
+    x = num_value(e)
     if x == 0:
         return -0.0 if e[1] else 0.0
     return float(x)
@@ -241,7 +260,7 @@ def dec_vals(vals, dk, shape, dtype=None):
     if dk == "c":
         a = np.array([complex(dec_num(r), dec_num(i)) for r, i in vals], dtype=dtype or np.complex128)
     elif dk == "i":
-        a = np.array([int(F(r[2])) for r, _ in vals], dtype=dtype or np.int64)
+        a = np.array([int(num_value(r)) for r, _ in vals], dtype=dtype or np.int64)
     else:
         a = np.array([dec_num(r) for r, _ in vals], dtype=dtype or np.float64)
     return a.reshape(shape)
@@ -886,6 +905,8 @@ def run_legacy(rc):
             smin = [l + i * c for l, i, c in zip(lo, s["i0"], cell)]
             smax = [l + (i + 1) * c for l, i, c in zip(lo, s["i0"], cell)]
             ck = s["ck"] if all(x.denominator == 1 for x in smin + smax) else "f"
+            if ck == "f":      # the numbers json carries are binary64
+                smin, smax = [F(float(x)) for x in smin], [F(float(x)) for x in smax]
             side.append(dict(name=s["name"], ck=ck, pmin=[S(x) for x in smin], pmax=[S(x) for x in smax],
                              dims=s["dims"], units=s["units"], tf=s["tf"]))
         if d == "side-swapped":
